@@ -357,6 +357,9 @@ def gen_cd_cases(ctx):
             c0, c1 = r.uniform(-5e6, 5e6), r.uniform(-5e6, 5e6)
             cs = [c0, c1, c0 + r.choice([0.0, r.uniform(0, 1e6)]), c1 + r.choice([0.0, r.uniform(0, 1e6)])]
             res = r.choice([1000.0, 333.3, 0.5, 50000.0, 1000])
+        # corners are (xmin, ymin, xmax, ymax) of pixel centres: keep max >= min also when the boundary-seeking
+        # expressions above round an ulp the other way (an inverted box is outside compute_domain's contract)
+        cs[2], cs[3] = max(cs[2], cs[0]), max(cs[3], cs[1])
         c = {"corners": [v if isinstance(v, int) else hexs(v) for v in cs]}
         if r.random() < 0.12:
             c["corners"] = [int(v) for v in cs]         # python ints (the test-suite's spelling)
@@ -637,13 +640,26 @@ def shard(ctx, name, typ, chk, lines, what, size=300):
     return texts
 
 
+def one_sample(ctx, sample):
+    """one evidence sample per kind of case (7 kinds -> 7 varied samples)"""
+    seen = ctx.__dict__.setdefault("_c14_kinds", set())
+    k = next(iter(sample))
+    if k in seen:
+        return None
+    seen.add(k)
+    return sample
+
+
 def run(ctx):
     ctx.rule = ("freeze: PRNG over CRS (longlat x3 spellings, EPSG:4326, laea incl. proj_info, stere N/S, merc, eqc, EPSG:3035) x point "
                 "clouds (boxes, dyadic, antimeridian-crossing, global, |span| near 355, poles, zero span in x / y, single and repeated "
                 "points, NaN / 1e30 / out-of-range sprinkles, all-NaN) x argument patterns (resolution scalar/int/pair via constructor "
                 "or freeze, shapes incl. one-pixel axes, both, neither, explicit extent+shape, partial) x 5 antimeridian modes x 8 "
                 "container kinds (numpy, list, dask, SwathDefinition numpy/dask/xarray/xarray+dask, bounding_box attr) x chunk sizes; "
-                "compute_domain directly on dyadic, floor/ceil-boundary and random corners incl. None x corners. A freeze case is "
+                "compute_domain directly on dyadic, floor/ceil-boundary and random corners incl. None x corners; entry points "
+                "DynamicAreaDefinition(), create_area_def() and optimize_projection=True (compute_optimal_bb_area on curved 2-D swaths with "
+                "interior extremes, 4 swath containers, 6 projections); call histories: 2-4 freezes with different proj_info / modes / "
+                "data on ONE object, each compared with a fresh object. A freeze case is "
                 "non-trivial when an area is computed from >= 2 distinct finite points or takes the antimeridian / pole / "
                 "degenerate / explicit branch; distinct = distinct canonical inputs")
     fcases = gen_freeze_cases(ctx)
@@ -656,8 +672,9 @@ def run(ctx):
     for h, o in zip(hcases, obs["history"]):
         name = h["crs"]["proj"] if isinstance(h["crs"], dict) else h["crs"]
         ctx.count("history:%s x%d" % (name, len(h["calls"])))
-        ctx.case(("hist", repr(h)), nontrivial=True, sample={"history": {"crs": h["crs"], "calls": [c["freeze"] for c in h["calls"]]},
-                                                             "impl_last": o.get("calls", [o])[-1]})
+        ctx.case(("hist", repr(h)), nontrivial=True,
+                 sample=one_sample(ctx, {"history": {"crs": h["crs"], "calls": [c["freeze"] for c in h["calls"]]},
+                                         "impl_last": o.get("calls", [o])[-1]}))
         ctx.traces += 1
         for key, what in oracle_history(h, o):
             ctx.add_failure(key, what, {"oracle": "history", "case": h, "impl": o})
@@ -681,8 +698,10 @@ def run(ctx):
         npts = len(set(tuple(p) for p in o.get("pts", []) if finite(fx(p[0])) and finite(fx(p[1]))))
         nontrivial = npts >= 2 or "aou" in o or case["pattern"].startswith(("explicit", "shape_1"))
         ctx.case(("fz", repr(sorted((k, repr(v)) for k, v in case.items()))), nontrivial=nontrivial,
-                 sample={"freeze": {k: case[k] for k in ("crs", "ctor", "freeze", "kind")}, "n_points": len(case["lons"]),
-                         "impl": o.get("result", o.get("error"))})
+                 sample=one_sample(ctx, {"freeze[%s|%s]" % ("optimize_projection" if case.get("optimize") else (case.get("via") or "ctor"),
+                                                          "geographic" if o.get("geo") else "projected"):
+                                        {k: case[k] for k in ("crs", "ctor", "freeze", "kind")}, "n_points": len(case["lons"]),
+                                        "impl": o.get("result", o.get("error"))}) if nontrivial else None)
         for key, what in oracle_freeze(case, o):
             ctx.add_failure(key, what, {"oracle": "freeze", "case": case, "impl": {k: v for k, v in o.items() if k not in ("idx",)}})
         if "pts" not in o and not ("result" in o and not case["lons"]) and "result" not in o:
@@ -710,7 +729,7 @@ def run(ctx):
     for c, o in zip(ccases, obs["compute_domain"]):
         ctx.count("compute_domain:" + ("full_x" if c["corners"][0] is None else "corners") + ("/res" if "resolution" in c else "") + ("/shape" if "shape" in c else ""))
         ctx.case(("cd", repr(sorted(c.items(), key=lambda kv: kv[0]))), nontrivial="result" in o,
-                 sample={"compute_domain": c, "impl": o.get("result", o.get("error"))})
+                 sample=one_sample(ctx, {"compute_domain": c, "impl": o.get("result", o.get("error"))}) if "result" in o else None)
         for key, what in oracle_cd(c, o):
             ctx.add_failure(key, what, {"oracle": "compute_domain", "case": c, "impl": o})
         LC.append(coq_ccase(c, o))
